@@ -81,6 +81,8 @@ void API_FUNC qt_sinc_init(qt_sinc_t *restrict  sinc_,
         memcpy(rdata->initial_value, initial_value, sizeof_value);
         rdata->result = ((uint8_t *)rdata->initial_value) + sizeof_value;
         assert(rdata->result);
+        /* the reduction of no submissions is the initial value */
+        memcpy(rdata->result, initial_value, sizeof_value);
 
         rdata->sizeof_shep_value_part = sizeof_shep_value_part;
 
@@ -138,6 +140,7 @@ void API_FUNC qt_sinc_reset(qt_sinc_t   *sinc_,
     if (NULL != rdata) {
         const size_t sizeof_shep_value_part = rdata->sizeof_shep_value_part;
         const size_t sizeof_value           = rdata->sizeof_value;
+        memcpy(rdata->result, rdata->initial_value, sizeof_value);
         for (size_t s = 0; s < num_sheps; s++) {
             const size_t shep_offset = s * sizeof_shep_value_part;
             for (size_t w = 0; w < num_wps; w++) {
